@@ -71,7 +71,8 @@ type nodeRT struct {
 	born    bool
 	alive   bool
 	removed bool
-	learner bool // started as learner
+	learner bool        // started as learner
+	peers   []raft.Peer // the peer list it was first started with (nil = join mode)
 	n       raft.Node
 	st      raft.IExtRaftStorage
 	closeSt func()
@@ -182,6 +183,7 @@ func (c *Cluster) boot(id uint64, peers []raft.Peer, learner bool) error {
 	}
 	nd.st, nd.closeSt = st, closer
 	nd.born, nd.alive, nd.learner = true, true, learner
+	nd.peers = peers
 	nd.n = raft.StartNode(c.config(nd), peers, learner)
 	nd.app = appState{}
 	return nil
@@ -420,7 +422,13 @@ func (c *Cluster) apply(ev Event, rec *Record) {
 		if err := reopenStorage(nd); err != nil {
 			panic(err)
 		}
-		nd.n = raft.RestartNode(c.config(nd))
+		if CurrentOrder.FreshOnUnusedWAL && storageUnused(nd.st) {
+			// node/raft.go startRaft: a wal without hard state and entries is a first start again
+			nd.n = raft.StartNode(c.config(nd), nd.peers, nd.learner)
+			rec.Res = "fresh-start"
+		} else {
+			nd.n = raft.RestartNode(c.config(nd))
+		}
 		nd.alive = true
 		snap, err := nd.st.Snapshot()
 		if err != nil {
@@ -873,4 +881,15 @@ func (c *Cluster) NewPayload() uint64 {
 	p := c.nextP
 	c.nextP++
 	return p
+}
+
+// storageUnused: nothing of raft's state was ever persisted (what node/raft.go isUnusedWAL tests on the wal)
+func storageUnused(st raft.IExtRaftStorage) bool {
+	hs, _, err := st.InitialState()
+	if err != nil || !raft.IsEmptyHardState(hs) {
+		return false
+	}
+	fi, err1 := st.FirstIndex()
+	li, err2 := st.LastIndex()
+	return err1 == nil && err2 == nil && li+1 == fi
 }
